@@ -1268,6 +1268,10 @@ func (ctx *RenderContext) getItem(container, index interface{}) (interface{}, er
 				return nil, nil // A nil key is in no map
 			}
 
+			if !indexValue.Comparable() {
+				return nil, nil // A slice, map or function is the key of no map
+			}
+
 			if indexValue.Type().ConvertibleTo(keyType) {
 				mapKey = indexValue.Convert(keyType)
 			} else {
